@@ -248,6 +248,8 @@ class H(explore.Harness):
                     if via != "ble":
                         ev.append(f"zc-add:{i}:{via}")
                         ev.append(f"zc-rm:{i}:{via}")
+        if self.p.get("pairing_shutdown") and self.mode != "none" and not getattr(self, "pairing_shut", False):
+            ev.append("shutdown-pairing")  # the pairing is shut down (it stays registered with the controller): advertisements keep arriving
         for k, w in enumerate(self.waiters):
             if not w["task"].done() and not w.get("cancel_requested"):
                 ev.append(f"cancel:{k}")
@@ -297,6 +299,12 @@ class H(explore.Harness):
                             w["tie"] = True  # advertisement at the very instant of the timeout: either outcome is legitimate
                         else:
                             w["adv_at"] = now
+        elif k == "shutdown-pairing":
+            self.pairing_shut = True
+            t = self.loop.create_task(self.target.pairings[IDS[0]].shutdown())
+            self.loop.run_until_idle()
+            if t.done() and not t.cancelled() and t.exception() is not None:
+                self.viol.append((f"pairing-shutdown-raises:{type(t.exception()).__name__}", {"err": str(t.exception())[:160]}))
         elif k in ("zc-add", "zc-rm"):
             try:
                 self._zc(k if k == "zc-add" else "zc-rm", IDS[int(parts[1])], parts[2])
@@ -394,7 +402,7 @@ class H(explore.Harness):
         from vt import canon as _c
 
         generic = tuple(_c.canon(c, depth=2, skip=("_char_cache", "_loop", "_async_zeroconf_instance", "pairings", "aliases", "discoveries", "transports", "_tasks")) for c in self.ctrls.values())
-        model = (tuple(sorted(self.may_find)), tuple(sorted((k, v % 3) for k, v in self.nadv.items())), tuple(sorted((k, tuple(sorted(v.items()))) for k, v in self.last_adv.items())), tuple(sorted(self.zc_cache)),
+        model = (getattr(self, "pairing_shut", False), tuple(sorted(self.may_find)), tuple(sorted((k, v % 3) for k, v in self.nadv.items())), tuple(sorted((k, tuple(sorted(v.items()))) for k, v in self.last_adv.items())), tuple(sorted(self.zc_cache)),
                  tuple(sorted((n, round(d[0] - self.loop.time(), 6)) for n, d in self.model_resolve.items())))
         return (model, ws, timers, tuple(sorted(self.discovered)), regs, len(self.loop._ready), self.preempt, generic, tuple(sorted(k for c in self.ctrls.values() for k in c.discoveries)))
 
@@ -590,6 +598,11 @@ def run(ctx):
         dict(kind="ip", pairing="none", waiters=1, ids=1, P=0, variants=True),
         dict(kind="coap", pairing="cached", waiters=1, ids=1, P=0, variants=True),
         dict(kind="ble", pairing="none", waiters=1, ids=1, P=0, variants=True),
+        # a pairing that is shut down while advertisements keep arriving (with and without cached state, every transport)
+        dict(kind="ble", pairing="nocache", waiters=1, ids=1, P=0, pairing_shutdown=True),
+        dict(kind="ble", pairing="cached", waiters=1, ids=1, P=0, pairing_shutdown=True),
+        dict(kind="ip", pairing="nocache", waiters=1, ids=1, P=0, pairing_shutdown=True),
+        dict(kind="coap", pairing="cached", waiters=1, ids=1, P=0, pairing_shutdown=True),
         # state changes through the zeroconf browser callback (debounced resolution, goodbye inside the debounce window)
         dict(kind="ip", pairing="none", waiters=1, ids=1, P=0, browser=True, timeouts=(5.0,)),
         dict(kind="coap", pairing="none", waiters=1, ids=1, P=0, browser=True, timeouts=(1.0,)),
